@@ -11,6 +11,7 @@ from mc import core
 
 PID = "C16"
 PERIODS = [(0.001, 1000), (0.005, 5000), (0.02, 20000), (1 / 64, 15625)]
+PATIENCE = 6.0
 EARLY_POLL = 0.002  # seconds the harness gives a wait() that must block to (wrongly) return
 
 
@@ -104,9 +105,9 @@ def run_schedule(period, P, sched, offset, release, res):
                 elif ev is None:
                     hs.stepTimingAsync(grid - t_call)
                 if ev is None:
-                    ev = rig.get(6)
+                    ev = rig.get(PATIENCE)
             else:
-                ev = rig.get(6)
+                ev = rig.get(PATIENCE)
             if ev[0] == "hang":
                 out.append((f"wait-never-returns:{'late' if t_call >= grid else 'on-time'}", f"wait #{k} did not return although the clock reached {now() - t0} us after t0 (grid point {k * P}); bodies {sched[:k]}"))
                 return out
@@ -165,7 +166,16 @@ def work(item):
                 if "stopped after two unresponsive wait() calls in one worker item" not in res.caps:
                     res.caps.append("stopped after two unresponsive wait() calls in one worker item")
                 continue
-            for sig, msg in run_schedule(period, P, sched, offset, release, res):
+            found = run_schedule(period, P, sched, offset, release, res)
+            if any(sig.startswith("wait-never-returns") or sig.startswith("wait-after-release-blocks") for sig, _m in found):
+                # exclude machine load: the same schedule must hang a second time, with a three times longer patience
+                global PATIENCE
+                PATIENCE = 20.0
+                try:
+                    found = run_schedule(period, P, sched, offset, release, res)
+                finally:
+                    PATIENCE = 6.0
+            for sig, msg in found:
                 if sig == "harness":
                     raise core.HarnessError(msg)
                 if sig.startswith("wait-never-returns") or sig.startswith("wait-after-release-blocks"):
